@@ -28,6 +28,19 @@ def run(args):
         ctx.obligations.append(ob)
     else:
         cases, metas = ctx.run_harness("c18", extra=[ctx.scratch])
+        dep_cases = [c for c in cases if c[0].startswith("c18 dep ")]
+        cases = [c for c in cases if not c[0].startswith("c18 dep ")]
+        ctx.tie("model effectiveText (an open dependency's editor text is what its importer is analysed against) = importer diagnostics with the text in the editor vs the same text on disk",
+                dep_cases, ctx.run_driver([c[0] for c in dep_cases]), canon=lambda s: s.split(" ")[0])
+        n_dep_sensitive = 0
+        for req, real in dep_cases:
+            ctx.nontrivial.add(req)
+            if not real.startswith("same"):
+                failures.append({"request": req, "real": real, "why": "the importer's diagnostics must be those of the dependency's latest (editor) text, not of the file on disk"})
+            elif real.endswith(" 1"):
+                n_dep_sensitive += 1
+        if dep_cases and n_dep_sensitive == 0:
+            failures.append({"request": "c18 dep *", "real": "no variant changed the importer's diagnostics", "why": "the dependency scenarios are not sensitive to the dependency's text: they would prove nothing"})
         model = ctx.run_driver([c[0] for c in cases])
         ctx.evaluations = len(cases)
         ctx.tie("model replay of the server's own event log = what hover answers after quiescence (and every real store passes the model's guard)",
